@@ -4,7 +4,7 @@
     section list and symbol table of ANY file (no well-formedness assumed unless
     a theorem says so) and a kernel name, and returns what the Go code returns,
     including its panics and log.Fatal exits. *)
-From Coq Require Import NArith List String Bool Permutation.
+From Coq Require Import PeanoNat NArith List String Bool Permutation.
 From RecordUpdate Require Import RecordSet.
 From VHsaco Require Import Hsaco HsacoSpec HsacoProofs.
 Import ListNotations RecordSetNotations.
@@ -177,6 +177,27 @@ Proof.
   - apply from_entire_code; assumption.
 Qed.
 Print Assumptions strip_only_genuine_partial.
+
+(** 7. History independence.  The result of a load is a function of the bytes
+    (view) and the name given to THAT call: in any sequence of loads performed
+    by one process, the k-th result is [load] of the k-th image alone, whatever
+    was loaded before or after, from whatever buffer.  (In the model this is
+    immediate -- [load] has no state; the content of the statement is that the
+    real loader is compared against it load by load inside histories, see
+    tools/checks/c13.py.) *)
+Theorem load_is_function_of_bytes : forall l k v name,
+  nth_error l k = Some (v, name) -> nth_error (load_seq l) k = Some (load v name).
+Proof. exact load_seq_nth. Qed.
+Print Assumptions load_is_function_of_bytes.
+
+Theorem load_history_independent : forall pre1 pre2 post1 post2 v name,
+  nth_error (load_seq (pre1 ++ (v, name) :: post1)) (List.length pre1) =
+  nth_error (load_seq (pre2 ++ (v, name) :: post2)) (List.length pre2).
+Proof.
+  intros. rewrite !(load_seq_nth _ _ v name); [reflexivity| |];
+    rewrite nth_error_app2, Nat.sub_diag by auto; reflexivity.
+Qed.
+Print Assumptions load_history_independent.
 
 (** ------------------------------------------------------------ non-vacuity *)
 Definition demo_hdr : hdr :=
